@@ -34,6 +34,15 @@ def main():
             pf = os.path.realpath(pycoin.__file__)
             if not pf.startswith(repo + os.sep):
                 raise RuntimeError("pycoin imported from %s, not from tree under test %s" % (pf, repo))
+        if spec.get("preload_networks"):
+            # process configuration: other coins' network objects are created in this order before the check touches
+            # anything (state shared at class / module level between networks would show up as a difference)
+            for sym in spec["preload_networks"]:
+                try:
+                    importlib.import_module("pycoin.symbols." + sym.lower())
+                except Exception:
+                    pass
+            rec.ev("process_config:preloaded_networks")
         mod = importlib.import_module("vmon.checks." + spec["property"].lower())
         mode = spec["mode"]
         if mode == "selftest":
